@@ -100,14 +100,40 @@ pub fn run(op: &str, args: &[String]) -> Option<String> {
             }
         }
         "ecies.pub" => {
-            if args.len() != 3 {
+            if args.len() != 4 {
                 return Some("BADARG".into());
             }
-            let msg = arg!(arg_bytes(args, 2));
+            let bcomp = arg!(arg_bool(args, 2));
+            let msg = arg!(arg_bytes(args, 3));
             let a = key!(arg_priv(args, 0));
-            let b = key!(arg_pub(args, 1));
-            match b.encrypt_message(&msg, &a) {
-                Ok(c) => format!("OK:{}", show_bytes(&c.to_bytes())),
+            let b = key!(arg_priv(args, 1)).compress_public_key(bcomp);
+            let (pa, pb) = match (a.to_public_key(), b.to_public_key()) {
+                (Ok(x), Ok(y)) => (x, y),
+                _ => return Some("ERR".into()),
+            };
+            match pb.encrypt_message(&msg, &a) {
+                Ok(c) => {
+                    let mem = match b.decrypt_message(&c, &pa) {
+                        Ok(p) => show_bytes(&p),
+                        Err(_) => "ERR".into(),
+                    };
+                    let via = match ECIESCiphertext::from_bytes(&c.to_bytes(), true).and_then(|c2| b.decrypt_message(&c2, &pa)) {
+                        Ok(p) => show_bytes(&p),
+                        Err(_) => "ERR".into(),
+                    };
+                    format!("OK:{};{};{}", show_bytes(&c.to_bytes()), mem, via)
+                }
+                Err(_) => "ERR".into(),
+            }
+        }
+        "ecies.keys" => {
+            if args.len() != 2 {
+                return Some("BADARG".into());
+            }
+            let d = key!(arg_priv(args, 0));
+            let p = key!(arg_pub(args, 1));
+            match ECIES::derive_cipher_keys(&d, &p) {
+                Ok(k) => format!("OK:{};{};{}", hex::encode(k.get_iv()), hex::encode(k.get_ke()), hex::encode(k.get_km())),
                 Err(_) => "ERR".into(),
             }
         }
@@ -247,7 +273,11 @@ pub fn run(op: &str, args: &[String]) -> Option<String> {
                         Ok(p) => show_bytes(&p),
                         Err(_) => "ERR".into(),
                     };
-                    format!("OK:{};{}", show_bytes(&c.to_bytes()), back)
+                    let via = match ECIESCiphertext::from_bytes(&c.to_bytes(), true).and_then(|c2| d.decrypt_message(&c2, &own)) {
+                        Ok(p) => show_bytes(&p),
+                        Err(_) => "ERR".into(),
+                    };
+                    format!("OK:{};{};{}", show_bytes(&c.to_bytes()), back, via)
                 }
                 Err(_) => "ERR".into(),
             }
